@@ -167,10 +167,12 @@ class C15(PropBase):
             "Limit::Error, pid, extra inlines. The harness calls the real print_json(pretty=false/true). Non-trivial = the report has a crashing_thread copy "
             "or a frame with a function; distinct = distinct case lines")
     trusted_base = [
-        "Coq 8.16.1 kernel (vm_compute in the finite checks c15_enumerations / c15_source_keys_documented / c15_format_pinned / c15_register_tables / *_rejects and the "
-        "non-vacuity Examples); standard library DecimalN (N.to_uint / N.of_uint round trip), Permutation, Sorted",
-        "hand-written model C15/Model.v of print_json, json_registers and Address Display: the WHOLE document (soft_errors included since round 5) except "
-        "possible_bit_flips[].confidence; C15/Pretty.v models serde_json's PrettyFormatter (two-space indent). Tied to the code by comparing the model's compact AND pretty "
+        "Coq 8.16.1 kernel (vm_compute in the finite checks c15_enumerations / c15_source_keys_documented / c15_format_pinned / c15_register_tables / c15_confidence_text / c15_widening_flocq / *_rejects and the "
+        "non-vacuity Examples); standard library DecimalN (N.to_uint / N.of_uint round trip), Permutation, Sorted, QArith; Flocq (binary32 arithmetic of C19's confidence model, b32_of_bits, binary_normalize: "
+        "c15_confidence_text / c15_b32_decode / c15_widening_flocq depend on the classical-reals axioms of the standard library through Flocq)",
+        "hand-written model C15/Model.v of print_json, json_registers and Address Display: the WHOLE document (soft_errors included since round 5); the member "
+        "possible_bit_flips[].confidence is a binary32 and is modelled as TEXT outside the integer-only JSON type (C15/Float.v: render_f32 = widening to binary64, shortest decimal that reads back, ryu's layout - "
+        "compared with the number print_json wrote for every reported bit flip; the compared view of the document is the real output minus that member); C15/Pretty.v models serde_json's PrettyFormatter (two-space indent). Tied to the code by comparing the model's compact AND pretty "
         "renderings byte for byte with the real output on every case and both build profiles (pretty: with print_json's own bytes whenever nothing had to be removed from "
         "the view, else with serde_json::to_string_pretty of the view)",
         "serde_json's writer is ASSUMED to emit what [serialise] / [pretty] emit; checked on every case, and the model's own parsers (parse, parse_ws) must accept the real documents",
@@ -185,15 +187,16 @@ class C15(PropBase):
         "oracle's independent JSON parser",
     ]
     assumptions = [
-        "partial: serde_json's byte-level writer and pretty printer are assumed (modelled by serialise / pretty, compared byte for byte, not verified); confidence is outside the model "
-        "(oracle: exact binary32 + C19 link)",
+        "partial: serde_json's byte-level writer and pretty printer are assumed (modelled by serialise / pretty, compared byte for byte, not verified); so is ryu's shortest-decimal writer for the confidence "
+        "(modelled by render_f32, compared on every reported bit flip, judged by conf_text_ok on every real text; the judgement's rounding interval is exact rational arithmetic - c15_confidence_interval - and its "
+        "widening agrees with Flocq's binary_normalize - c15_widening_flocq -, but it is not connected to a formal IEEE-754 decimal reader)",
         "wf_state and state_scalar (hypotheses of c15_report_valid / c15_schema_conformance / c15_address_widths) are executable predicates; the run evaluates them on every real state and "
         "reports a state outside them (only Os::Unknown, finding F-C15a, is a recorded exception); wf_state's arithmetic clauses are the C08 / C11 / C14 conclusions",
         "string contents the model passes through (debug_id, code_id, version, crash reason, last_error_value texts, instruction text) are not modelled beyond being strings of scalar values",
     ]
     manifest = {
         "text": "partial: serde_json's writer is assumed (modelled by Gallina serialisers for the compact and the pretty form that the run compares byte for byte with the real output of the whole "
-                "document on every case); the binary32 confidence is outside the model. Theorems (Coq, all values / all process states, both build profiles): "
+                "document on every case; the binary32 confidence as text, per reported bit flip). Theorems (Coq, all values / all process states, both build profiles): "
                 "c15_report_valid - for every well-formed state whose strings are Unicode scalar values print_json produces a report without trap that conforms to DOC_SCHEMA (the schema tree "
                 "translate/c15_schema.py regenerates from json-schema.md on every run: member names documented and unique, documented types or null, documented enumeration strings, hex strings 0x + 1..16 "
                 "lower-case digits), and BOTH renderings (compact, pretty) are valid UTF-8 (strict decoder) and are accepted by an RFC 8259 parser with insignificant whitespace, denoting exactly the report; "
@@ -205,12 +208,16 @@ class C15(PropBase):
                 "c15_consistent / c15_offsets_checker - Gallina checkers of the self-consistency clauses on a JSON value alone (thread_count / frame_count / frame numbers / missing_symbols / the crashing_thread copy = "
                 "indexed thread + threads_index + registers in frame 0 only / num_records; module_offset = offset - base_addr of a module of that name, on the decoded numbers) hold of every well-formed state's report; "
                 "c15_keys_sorted (every object of the report strictly sorted by member name, as a BTreeMap writes it); c15_basename (rfind + slice, separators read off utils.rs); c15_parse_ws_extends; "
+                "c15_function_offsets - function_offset = offset - function base on the decoded numbers of the document, the base taken from the state's frame (judgement [fn_offsets_ok], every well-formed state); "
+                "c15_confidence_text - for EVERY bit-flip details value (C19's exact Flocq model of confidence()) the text rendered for the binary32 confidence is an RFC 8259 number that lies in the round-to-nearest-even "
+                "interval of the widened value (reads back as exactly that binary32), lies within [0,1] and has no shorter equivalent (finite check over the 80 classes of details, extended by C19's clamp lemma); "
+                "c15_confidence_judgement / c15_confidence_interval / c15_b32_decode / c15_widening_flocq say what that judgement means (rational inequalities; decoder = Flocq's b32_of_bits for every pattern); "
                 "c15_counts / c15_frame_numbers / c15_offsets / c15_modules_mirror / c15_crashing_thread_copy; finite checks over regenerated tables: c15_enumerations, c15_source_keys_documented. The Gallina "
-                "checkers [conforms DOC_SCHEMA], [widths], [consistent], [offsets_ok], [keys_sorted], [parse_ws] and the hypotheses [wf_state], [state_scalar], [regs_from_table], [frames_in_modules], [keys_hyp] are also evaluated on every real "
+                "checkers [conforms DOC_SCHEMA], [widths], [consistent], [offsets_ok], [fn_offsets_ok], [conf_text_ok], [keys_sorted], [parse_ws] and the hypotheses [wf_state], [state_scalar], [regs_from_table], [frames_in_modules], [keys_hyp] are also evaluated on every real "
                 "output / state of the run. Generated states cover "
                 "every optional member, malformed soft-errors streams and 32-bit platforms with addresses >= 2^32 (coverage counts in the evidence).",
         "note": "Trusted: Coq kernel + DecimalN; hand-written model (correspondence-checked byte for byte against print_json's compact and pretty output); serde_json writer assumed; schema translator + hand "
-                "transcription cross-checked. Not exhibited by the model: serde_json's byte-level writer, confidence, the text of pass-through strings.",
+                "transcription cross-checked. Not exhibited by the model: serde_json's byte-level writer (incl. ryu), the text of pass-through strings.",
     }
 
     def setup(self):
